@@ -781,6 +781,11 @@ func (x *Exec) execAppend(f *Frame, i *ssa.Call) {
 		Args: []*Expr{{Kind: ECall, Name: "$appended", Args: []*Expr{{Kind: EIdent, Name: "j$"}}}}}
 	env := x.newEnv(map[string]TV{"$r": {r, nil}, "$s": {s, nil}, "$t": {t, nil}}, x.cur.clone(), x.entry)
 	x.addQhyp(x.cur, qhyp{mark: x.b.Mark(), guard: x.cur.reach, expr: q, env: env, src: "append elements"})
+	if x.con != nil && x.con.Hybrid {
+		q2 := &Expr{Kind: EQuant, Name: "forall", Vars: []QVar{{Name: "j$", Type: "int"}},
+			Args: []*Expr{{Kind: ECall, Name: "$appended2", Args: []*Expr{{Kind: EIdent, Name: "j$"}}}}}
+		x.addQhyp(x.cur, qhyp{mark: x.b.Mark(), guard: x.cur.reach, expr: q2, env: env, src: "append elements (indexed from the appended slice)"})
+	}
 	x.setReg(f, i, r)
 }
 
@@ -1014,7 +1019,9 @@ func (x *Exec) execSortSlice(f *Frame, i *ssa.Call) {
 	iname := strings.Replace(pname, "perm$", "perminv$", 1)
 	x.db.Specs[iname] = &SpecFn{Name: iname, Params: []QVar{{Name: "i", Type: "int"}}, Ret: "int", PkgPath: x.pkg.Pkg.Path()}
 	h4 := mkq(fmt.Sprintf("forall j$ int :: 0 <= j$ && j$ < len($new) ==> 0 <= %s(j$) && %s(j$) < len($new) && %s(%s(j$)) == j$", iname, iname, pname, iname))
-	for k, h := range []*Expr{h1, h2, h3, h4} {
+	// consequence of h1 and h4, stated so that a term $old[j] leads to its position after sorting
+	h5 := mkq(fmt.Sprintf("forall j$ int :: 0 <= j$ && j$ < len($new) ==> $old[j$] == $new[%s(j$)]", iname))
+	for k, h := range []*Expr{h1, h2, h3, h4, h5} {
 		env := x.newEnv(vars, x.cur.clone(), x.entry)
 		x.addQhyp(x.cur, qhyp{mark: x.b.Mark(), guard: x.cur.reach, expr: h, env: env, src: fmt.Sprintf("sort.Slice (assumed) #%d", k)})
 	}
